@@ -430,3 +430,81 @@ errno_t __wrap__wcscmp_s_chk(const wchar_t *dest, rsize_t dmax, const wchar_t *s
     k.src_is_str = 1; k.srclim = k.slen < 0 ? 8 : k.slen; k.flags = resultp ? 0 : 1;
     if (BADBOS) { nskip++; return __real__wcscmp_s_chk(dest, dmax, src, smax, resultp, destbos, srcbos); }
     { PLANT(resultp, int, SENT_I) RUN(rc = __real__wcscmp_s_chk(dest, dmax, src, smax, resultp, destbos, srcbos)); { HARVEST_I(resultp) emit(&k, rc, -1, q_o1, h0); } } return rc; }
+
+/* ---- multibyte / wide conversions (C15): events in the format of hmbs, written to $VERIF_WRAPLOG_MBS.  The standard
+ *      function is run next to each call on a private buffer with a copy of the conversion state. ---- */
+#include <locale.h>
+#include <langinfo.h>
+static FILE *mlog;
+static long mevid;
+static void mopen(void) { const char *p; static int done; if (done) return; done = 1; p = getenv("VERIF_WRAPLOG_MBS"); mlog = p ? fopen(p, "a") : NULL; if (mlog) setvbuf(mlog, NULL, _IOLBF, 0); }
+static const char *cur_loc(void) {      /* the two codesets the specification knows */
+    const char *cs = nl_langinfo(CODESET);
+    if (cs && !strcmp(cs, "UTF-8")) return "UTF8";
+    if (cs && (!strcmp(cs, "ANSI_X3.4-1968") || !strcmp(cs, "US-ASCII") || !strcmp(cs, "ASCII"))) return "C";
+    return 0;
+}
+#define MCLAMP(v) ((v) == (size_t)-1 ? -1L : ((v) > 1000000000UL ? 1000000000L : (long)(v)))
+static void m_emit(int fn, const char *loc, long dmax, long len, int dn, int flags, long start, const long *src, long nsrc,
+                   const void *dest, int wide_dest, long rc, size_t ret, long pos, int psinit, int ps0, long lcnt, long lpos, const long *lout, long nlout, int h0) {
+    long i;
+    static unsigned char buf[4 * 260];
+    long nd = (dest && dmax > 0 && dmax <= 256) ? safe_read(dest, buf, dmax * (wide_dest ? 4 : 1)) / (wide_dest ? 4 : 1) : 0;
+    fprintf(mlog, "{\"id\":%ld,\"fn\":%d,\"loc\":\"%s\",\"dmax\":%ld,\"len\":%ld,\"dn\":%d,\"flags\":%d,\"start\":%ld,\"src\":[", ++mevid, fn, loc, dmax, len, dn, flags, start);
+    for (i = 0; i < nsrc; i++) fprintf(mlog, "%s%ld", i ? "," : "", src[i]);
+    fprintf(mlog, "],\"post\":[");
+    for (i = 0; i < nd; i++) { long e = get_el(buf + i * (wide_dest ? 4 : 1), wide_dest ? 4 : 1); fprintf(mlog, "%s%ld", i ? "," : "", e > 1500000000L ? 1500000000L : e); }
+    fprintf(mlog, "],\"rc\":%ld,\"ret\":%ld,\"pos\":%ld,\"psinit\":%d,\"ps0\":%d,\"lcnt\":%ld,\"lpos\":%ld,\"lout\":[", rc, MCLAMP(ret), pos, psinit, ps0, lcnt, lpos);
+    for (i = 0; i < nlout; i++) fprintf(mlog, "%s%ld", i ? "," : "", lout[i]);
+    fprintf(mlog, "],\"h\":[");
+    for (i = h0; i < h_n && i < 64; i++) fprintf(mlog, "%s%d", i > h0 ? "," : "", h_codes[i]);
+    fprintf(mlog, "],\"hn\":%d,\"hk\":\"\",\"frame_ok\":true,\"fault\":\"none\"}\n", h_n - h0);
+}
+/* the source as a sequence of element values up to and including its terminator (at most 60), 0 elements if unreadable */
+static long m_src(const void *p, int w, long *out) {
+    static unsigned char buf[4 * 64];
+    long got = p ? safe_read(p, buf, 60 * w) / w : 0, i;
+    for (i = 0; i < got; i++) { out[i] = get_el(buf + i * w, w); if (out[i] == 0) return i + 1; }
+    return -1;      /* no terminator in the window: not expressible */
+}
+extern errno_t __real__mbstowcs_s_chk(size_t *retvalp, wchar_t *dest, rsize_t dmax, const char *src, rsize_t len, const size_t destbos);
+errno_t __wrap__mbstowcs_s_chk(size_t *retvalp, wchar_t *dest, rsize_t dmax, const char *src, rsize_t len, const size_t destbos) {
+    long sv[64], lo[160], ns, i, lcnt = -2, nlo = 0; const char *loc; errno_t rc; int h0; size_t lr; static wchar_t lb[160];
+    init_once(); mopen(); loc = cur_loc(); ns = m_src(src, 1, sv);
+    if (!mlog || !loc || !retvalp || ns < 0 || len > 128 || dmax > 256 || (const void *)dest == (const void *)src /* overlap: not in the vocabulary */ || (dest && destbos != (size_t)-1 && destbos < dmax * sizeof(wchar_t))) { nskip++; return __real__mbstowcs_s_chk(retvalp, dest, dmax, src, len, destbos); }
+    errno = 0; lr = mbstowcs(dest ? lb : 0, src, len); lcnt = MCLAMP(lr);
+    if (lcnt >= 0 && dest) { nlo = lcnt + 1; for (i = 0; i < nlo && i < 150; i++) lo[i] = i < (long)len || lb[i] == 0 ? (long)lb[i] : -1; if (lcnt == (long)len) nlo = lcnt; }
+    h0 = h_n; hook_on(); rc = __real__mbstowcs_s_chk(retvalp, dest, dmax, src, len, destbos); hook_off();
+    m_emit(1, loc, (long)dmax, (long)len, dest ? 0 : 1, 0, 1, sv, ns, dest, 1, rc, *retvalp, -2, 1, 1, lcnt, -2, lo, nlo, h0);
+    return rc; }
+extern errno_t __real__wcstombs_s_chk(size_t *retvalp, char *dest, rsize_t dmax, const wchar_t *src, rsize_t len, const size_t destbos);
+errno_t __wrap__wcstombs_s_chk(size_t *retvalp, char *dest, rsize_t dmax, const wchar_t *src, rsize_t len, const size_t destbos) {
+    long sv[64], lo[160], ns, i, lcnt = -2, nlo = 0; const char *loc; errno_t rc; int h0; size_t lr; static char lb[160];
+    init_once(); mopen(); loc = cur_loc(); ns = m_src(src, 4, sv);
+    if (!mlog || !loc || !retvalp || ns < 0 || len > 128 || dmax > 256 || (const void *)dest == (const void *)src || (dest && destbos != (size_t)-1 && destbos < dmax)) { nskip++; return __real__wcstombs_s_chk(retvalp, dest, dmax, src, len, destbos); }
+    for (i = 0; i < ns; i++) if (sv[i] > 1500000000L) { nskip++; return __real__wcstombs_s_chk(retvalp, dest, dmax, src, len, destbos); }
+    memset(lb, 0x5C, sizeof lb); errno = 0; lr = wcstombs(dest ? lb : 0, src, len); lcnt = MCLAMP(lr);
+    if (lcnt >= 0 && dest) { nlo = lcnt < (long)len ? lcnt + 1 : lcnt; for (i = 0; i < nlo && i < 150; i++) lo[i] = (unsigned char)lb[i]; }
+    h0 = h_n; hook_on(); rc = __real__wcstombs_s_chk(retvalp, dest, dmax, src, len, destbos); hook_off();
+    m_emit(3, loc, (long)dmax, (long)len, dest ? 0 : 1, 0, 1, sv, ns, dest, 0, rc, *retvalp, -2, 1, 1, lcnt, -2, lo, nlo, h0);
+    return rc; }
+extern errno_t __real__wcrtomb_s_chk(size_t *retvalp, char *dest, rsize_t dmax, wchar_t wc, mbstate_t *ps, const size_t destbos);
+errno_t __wrap__wcrtomb_s_chk(size_t *retvalp, char *dest, rsize_t dmax, wchar_t wc, mbstate_t *ps, const size_t destbos) {
+    long sv[1], lo[16], i, lcnt, nlo = 0; const char *loc; errno_t rc; int h0, ps0; size_t lr; char lb[32]; mbstate_t lps;
+    init_once(); mopen(); loc = cur_loc(); sv[0] = (long)(uint32_t)wc;
+    if (!mlog || !loc || !retvalp || !ps || dmax > 256 || sv[0] > 1500000000L || (dest && destbos != (size_t)-1 && destbos < dmax)) { nskip++; return __real__wcrtomb_s_chk(retvalp, dest, dmax, wc, ps, destbos); }
+    lps = *ps; ps0 = mbsinit(ps) ? 1 : 0; errno = 0; lr = wcrtomb(lb, wc, &lps); lcnt = MCLAMP(lr);
+    if (lcnt >= 0) { nlo = lcnt; for (i = 0; i < nlo; i++) lo[i] = (unsigned char)lb[i]; }
+    h0 = h_n; hook_on(); rc = __real__wcrtomb_s_chk(retvalp, dest, dmax, wc, ps, destbos); hook_off();
+    m_emit(5, loc, (long)dmax, 0, dest ? 0 : 1, 0, 1, sv, 1, dest, 0, rc, *retvalp, -2, mbsinit(ps) ? 1 : 0, ps0, lcnt, -2, lo, nlo, h0);
+    return rc; }
+extern errno_t __real__wctomb_s_chk(int *retvalp, char *dest, rsize_t dmax, wchar_t wc, const size_t destbos);
+errno_t __wrap__wctomb_s_chk(int *retvalp, char *dest, rsize_t dmax, wchar_t wc, const size_t destbos) {
+    long sv[1], lo[16], i, lcnt, nlo = 0; const char *loc; errno_t rc; int h0, r; char lb[32];
+    init_once(); mopen(); loc = cur_loc(); sv[0] = (long)(uint32_t)wc;
+    if (!mlog || !loc || !retvalp || dmax > 256 || sv[0] > 1500000000L || (dest && destbos != (size_t)-1 && destbos < dmax)) { nskip++; return __real__wctomb_s_chk(retvalp, dest, dmax, wc, destbos); }
+    r = wctomb(lb, wc); wctomb(0, 0); lcnt = r < 0 ? -1 : r;
+    if (lcnt >= 0) { nlo = lcnt; for (i = 0; i < nlo; i++) lo[i] = (unsigned char)lb[i]; }
+    h0 = h_n; hook_on(); rc = __real__wctomb_s_chk(retvalp, dest, dmax, wc, destbos); hook_off();
+    m_emit(6, loc, (long)dmax, 0, dest ? 0 : 1, 0, 1, sv, 1, dest, 0, rc, *retvalp < 0 ? (size_t)-1 : (size_t)*retvalp, -2, 1, 1, lcnt, -2, lo, nlo, h0);
+    return rc; }
